@@ -514,3 +514,50 @@ def check_pair_order(facts, rep):
         rep.ok('E10.R9-pair-order', inst, '(before, after) on %d returning path(s)' % len(good))
     else:
         rep.indet('E10.R9: parse_pair builds its pair outside the recognised fragment: %s %s' % ([x[:2] for x in seen], unknown[:2]))
+
+
+def check_bigraded_decision(facts, rep):
+    """R10 (C20, "lists exactly the groups the library computes .. in the right (i, j) cells"): `ykh kh` prints the
+    one-row sequence instead of the (i, j) table only when it has *established* that (h, t) != (0, 0) for the parsed ring
+    elements: every path of kh::App::run that reaches display_seq has taken an `is_zero()` test of h or of t (the parsed
+    pair) with the answer false. A decision read from the spelling of `-c` alone treats `-t F3 -c 3` or `-c 0,0` - zero in
+    the ring, not spelled "0" - as a deformation and merges the groups of different j into one row."""
+    from symex import SymEx, show
+    ks = [k for k in facts.bodies if k.endswith('cmd::kh::App::<R>::run')]
+    if len(ks) != 1:
+        rep.indet('E10.R10: kh::App::run not found')
+        return
+    b = facts.bodies[ks[0]]
+    rep.saw(b)
+    inst = 'kh::App::run|the singly graded sequence only after (h, t) != (0, 0) was established on the parsed values'
+    try:
+        paths = SymEx(b, havoc_loops=True, max_paths=20000).run()
+    except Exception as ex:
+        rep.indet('E10.R10: %s' % str(ex)[:80])
+        return
+    n_seq = n_ok = 0
+    bad = None
+    unknown = None
+    for p in paths:
+        if not any(e.name.split('::')[-1] == 'display_seq' for e in p.calls()):
+            continue
+        n_seq += 1
+        zs = [(sk(c.term), c.value) for c in p.branches() if re.match(r'^is_zero\(', sk(c.term)) and 'parse_pair(' in sk(c.term)]
+        if any(v == 0 for _, v in zs):
+            n_ok += 1
+            continue
+        strs = [sk(c.term) for c in p.branches() if re.match(r'^(contains|eq|ne)\(', sk(c.term)) and 'c_value' in sk(c.term)]
+        if strs:
+            bad = strs[0]
+        else:
+            unknown = [sk(c.term)[:60] for c in p.branches()][-3:]
+    if n_seq == 0:
+        rep.indet('E10.R10: no path of kh::App::run prints the singly graded sequence')
+    elif bad and not unknown:
+        rep.violation('E10.R10-bigraded-decision', inst,
+                      'kh::App::run prints the one-row sequence on a path that has only looked at the text of `-c` (%s) and not at the parsed h, t: a value that is zero in the ring without being spelled "0" (`-t F3 -c 3`, `-c 0,0`) gets the singly graded row although the library computes the bigraded groups' % bad[:100],
+                      where=b.where())
+    elif unknown:
+        rep.indet('E10.R10: a path of kh::App::run reaches display_seq under conditions outside the recognised fragment: %s' % unknown)
+    else:
+        rep.ok('E10.R10-bigraded-decision', inst, '%d path(s) to display_seq, each after is_zero(h) or is_zero(t) answered false' % n_ok)
